@@ -130,6 +130,9 @@ func runArith(sc arithScenario, enc *json.Encoder) error {
 			return fmt.Errorf("BeginBlock panicked: %s", p)
 		}
 		now := nsSince(w.header().Time, base)
+		// the validator-fee rate exactly as stored: an 18-decimal fixed-point number (1/3 is stored as 0.333333333333333333)
+		feeNum := w.App.StreamKeeper.GetParams(w.Ctx()).ValidatorFee.BigInt().String()
+		feeDen := "1000000000000000000"
 		pre := w.arithStream(base)
 		funds := w.arithBal("A1")
 		b0 := map[string]*big.Int{"A1": w.arithBal("A1"), "A2": w.arithBal("A2"), "feecol": w.arithBal("feecol"), "stream": w.arithBal("stream")}
@@ -166,7 +169,7 @@ func runArith(sc arithScenario, enc *json.Encoder) error {
 		post := w.arithStream(base)
 		delta := func(n string) string { return new(big.Int).Sub(w.arithBal(n), b0[n]).String() }
 		rec := J{"a": "Arith", "id": sc.ID, "step": k + 1, "op": st.Op, "amt": bigOf(st.Amt).String(), "rate": bigOf(st.Rate).String(),
-			"now": now.String(), "feeNum": sc.FeeNum, "feeDen": sc.FeeDen, "funds": funds.String(),
+			"now": now.String(), "feeNum": feeNum, "feeDen": feeDen, "funds": funds.String(),
 			"pre": pre, "post": post,
 			"res": J{"ok": rr.Code == 0, "code": rr.Code, "cs": rr.Codespace, "panic": rr.Code == sdkerrors.ErrPanic.ABCICode() && rr.Codespace == sdkerrors.ErrPanic.Codespace(), "log": trunc(rr.Log)},
 			"gain": J{"A1": delta("A1"), "A2": delta("A2"), "feecol": delta("feecol"), "stream": delta("stream")}}
